@@ -19,7 +19,7 @@ SegStr  == {<<"a">>, <<"b">>, <<"a", "b">>}
 SegStrDash == {<<"a">>, <<"a", "-", "b">>, <<"a", ".", "b">>}
 Segs    == {SSeg(w) : w \in SegStr} \cup {PSeg}
 RoutesN == UNION {[1..n -> Segs] : n \in 0..MaxDepth}
-MountPres == UNION {[1..n -> Segs] : n \in 1..MaxDepth}
+MountPres == UNION {[1..n -> Segs] : n \in 0..MaxDepth}     \* <<>>: mounted at the root, `"/".By(child)`
 NParams(r) == Cardinality({i \in DOMAIN r : r[i].k = "P"})
 MethodSets == IF METHODS THEN {<<"GET">>, <<"POST">>, <<"GET", "POST">>} ELSE {<<"GET">>}
 AppFangs(a) == IF ~FANGS THEN {<<>>} ELSE IF RICH THEN {<<>>, <<10 * a + 1>>, <<10 * a + 1, 10 * a + 2>>} ELSE {<<>>, <<10 * a + 1>>}
@@ -71,7 +71,8 @@ AddMount(a, pre, b) ==
   /\ apps' = [apps EXCEPT ![a].items = Append(@, [t |-> "mount", segs |-> pre, methods |-> <<>>, local |-> <<>>, h |-> 0, app |-> b])]
   /\ mountedSet' = mountedSet \cup {b} /\ UNCHANGED <<nextH, early, done>>
 UsedFangs == UNION {SeqToSet(apps[a].fangs) : a \in 1..NApps} \cup UNION {SeqToSet(it.local) : it \in UNION {Items(a) : a \in 1..NApps}}
-Finish(e) == /\ ~done /\ mountedSet = 2..NApps /\ \A a \in 1..NApps : \E it \in Items(a) : it.t = "route"
+Finish(e) == /\ ~done /\ mountedSet = 2..NApps
+             /\ \A a \in 1..NApps : \E it \in Items(a) : it.t = "route" \/ (it.t = "mount" /\ it.segs = <<>>)   \* (a root mount leaves no room for a route)
              /\ (e = 0 \/ (FANGS /\ e \in UsedFangs))
              /\ early' = e /\ done' = TRUE /\ UNCHANGED <<apps, mountedSet, nextH>>
 
